@@ -1,6 +1,34 @@
+import re
+
+
+def lean_str(s):
+    return '"' + s.replace("\\", "\\\\").replace('"', '\\"').replace("\n", "\\n") + '"'
+
+
 def gen(x):
     h = x.strip_comments(x.src("platform/mdsdrv.h"))
     w = ["def mdsdrv_data_count_max : Nat := %d  -- mdsdrv.h MDSDRV_Data" % x.const_int(h, "data_count_max", "mdsdrv.h:data_count_max")]
     for n, v in x.enum_body(h, "InstrumentType", "mdsdrv.h:MDSDRV_Data::InstrumentType"):
         w.append("def mdsdrv_%s : Nat := %d" % (n, v))
+    c = x.strip_comments(x.src("platform/mdsdrv.cpp"))
+    # add_pitch_node: the node-count limit, checked on the byte size after the push_backs
+    m = x.need(re.search(r'if\(env_data->size\(\) > \(extend \? (\d+)u : (\d+)u\) \* (\d+)\)\s*throw InputError\(nullptr, "([^"]*)"\);', c),
+               "mdsdrv.cpp:add_pitch_node node limit")
+    w.append("def mdsdrv_pitch_node_size_ext : Nat := %s  -- mdsdrv.cpp add_pitch_node (extend ? 6u : 4u)" % m.group(1))
+    w.append("def mdsdrv_pitch_node_size : Nat := %s" % m.group(2))
+    w.append("def mdsdrv_pitch_node_max : Nat := %s  -- ... * 256" % m.group(3))
+    w.append("def mdsdrv_msg_pitch_too_long : String := %s" % lean_str(m.group(4)))
+    # add_pitch_envelope / add_extended_pitch_envelope: the loop position must fit its byte (both sites, same text)
+    ms = re.findall(r'if\(loop_pos > (\d+)\)\s*throw InputError\(nullptr, stringf\("([^"%]*)%d([^"%]*)", id\)\.c_str\(\)\);', c)
+    if len(ms) != 2 or ms[0] != ms[1]:
+        raise x.ShapeError("mdsdrv.cpp:pitch envelope loop position check (compact and extended)")
+    w.append("def mdsdrv_pitch_loop_max : Nat := %s  -- mdsdrv.cpp if(loop_pos > 255)" % ms[0][0])
+    w.append("def mdsdrv_msg_pitch_loop : String × String := (%s, %s)  -- around %%d = id" % (lean_str(ms[0][1]), lean_str(ms[0][2])))
+    # add_instrument: empty tag
+    m = x.need(re.search(r'if\(tag\.empty\(\)\)\s*throw InputError\(nullptr, stringf\("([^"%]*)%d([^"%]*)", id\)\.c_str\(\)\);\s*auto it = tag\.begin\(\);', c),
+               "mdsdrv.cpp:add_instrument empty tag")
+    w.append("def mdsdrv_msg_no_ins_type : String × String := (%s, %s)  -- around %%d = id" % (lean_str(m.group(1)), lean_str(m.group(2))))
+    # add_ins_fm_2op: the base must be an FM instrument
+    x.need(re.search(r'int ins_id = tag_data\[0\];\s*try\s*\{\s*if\(ins_type\.at\(ins_id\) != INS_FM\)\s*throw std::out_of_range', c),
+           "mdsdrv.cpp:add_ins_fm_2op base type check")
     return w
